@@ -14,15 +14,15 @@ COMMON_NOTE = ("Trusted base: Kani/CBMC/CaDiCaL, rustc. Every verdict is 'for al
                "per concrete instantiation (listed in the evidence). Allocation never fails. ")
 
 CLAIMS = {
-    "C01": ("Round trip for 30 catalogued compositions: two (thorough: three) adjacent symbolic items are pushed and read back "
+    "C01": ("Round trip for 32 catalogued compositions: two (thorough: three) adjacent symbolic items are pushed and read back "
             "(length, one symbolic position, emptiness, full iteration, into_owned), no library panic reachable. Bounded model checking is the right level: "
             "the property is a per-value functional statement and the solver quantifies over all values of the bounded shapes (all u8/usize/i128/char/f64-bit values, "
             "all byte contents, all 1-4-byte UTF-8 scalars of the generator's lead-byte classes).",
             "Symbolic lengths only for byte slices in two-item harnesses; strings, rows and nested slices have concrete shapes from a fixed rotation with symbolic contents. "
             "Not covered: columns of string regions (exhaust 12 GB), into_owned of columns, Huffman/dictionary containers (their kernels are under C06/C07), items longer than 3 elements, nesting deeper than 2.", "3 C01"),
-    "C02": ("Append-only: bounded histories (push, reserve_regions, push, push; thorough: 5 pushes crossing storage reallocation) on 21 compositions with every earlier index re-read after every step.",
+    "C02": ("Append-only: bounded histories (push, reserve_regions, push, push; thorough: 5 pushes crossing storage reallocation) on 23 compositions with every earlier index re-read after every step.",
             "Histories are short (3-5 steps) with concrete shapes; long random histories are outside the technique. Index-container representation switches are decided in C05, bit-packed appends in C06.", "3 C02"),
-    "C03": ("FlatStack as a sequence for Vec, IndexOptimized and IndexList index containers: len/is_empty/get/iter/cloned iter/size hints after copies of unconstrained usize values, extend == from_iter == repeated copy, reserve invisible, clone independent, clear empties, get(i>=len) must panic.",
+    "C03": ("FlatStack as a sequence for Vec, IndexOptimized and IndexList index containers: len/is_empty/get/iter/cloned iter/size hints after copies of unconstrained usize values, extend == from_iter == repeated copy (also for iterators without a size hint and stack-to-stack), reserve invisible, clone independent, clear empties, get(i>=len) must panic.",
             "2-3 copies; Debug output not covered.", "3 C03"),
     "C04": ("(a) adjacent multi-byte strings read back byte-identical and valid UTF-8 in every string-bearing composition incl. cloned, merged, cleared regions and the generation-0 dictionary region; "
             "(b) the runner enumerates every `impl Push<T> for StringRegion` and every `unsafe` in the CURRENT sources and generates one harness per impl: string-like T get valid strings, byte-like T get arbitrary bytes and must still yield valid UTF-8 (a byte-accepting write path is refuted with concrete invalid bytes).",
@@ -35,7 +35,7 @@ CLAIMS = {
             "NOT decided: DictionaryCodec::new_from (choice of heavy hitters/tags), generations of merges, > 1024 distinct strings, several dictionary entries at once (B-tree inserts cannot be encoded).", "3 C07"),
     "C08": ("Twin run per composition: history, clear, pushes vs the same pushes on Default::default(): equal indices, reads and used bytes; a second variant reuses the shape of the last item before the clear so that stale dedup memory or offsets would be hit.",
             "Histories of 1-2 items before and after the clear. HuffmanContainer::clear not encodable.", "3 C08"),
-    "C09": ("clone / clone_from (destination pre-filled longer, or empty) on 21 Clone-able compositions: the copy reads identically, answers an identical push identically, and diverging pushes/clears on one side never change the other.",
+    "C09": ("clone / clone_from (destination pre-filled longer, or empty) on 23 Clone-able compositions (incl. Result and tuple regions whose BOTH halves keep state): the copy reads identically, answers an identical push identically, and diverging pushes/clears on one side never change the other.",
             "Histories of 1-2 items. DictionaryCodec is not Clone; Huffman table clone not covered.", "3 C09"),
     "C10": ("reserve_regions between pushes vs a twin that never reserves (equal indices and reads); merge_regions over populated+empty sources, over no sources and over the target's own ancestor vs Default::default().",
             "Announced sizes are those of 1-2-item regions. Coded regions only in the states their kernels are decided in (C06/C07). HuffmanContainer::reserve_regions is todo!() upstream.", "3 C10"),
@@ -45,20 +45,20 @@ CLAIMS = {
             "3 pushes, rows 0..3 wide. ConsecutiveIndexPairs<CollapseSequence<_>> violates the type's documented precondition and is excluded.", "3 C12"),
     "C13": ("Fail-stop accessors: ReadSlice (region-backed and owned-borrowed; over u8, strings, nested), ReadColumns (both representations), for any symbolic i >= len the call must panic (must-panic obligations), in-bounds positions return the item's own element although neighbours are adjacent.",
             "Items of 1-3 elements with adjacent neighbours. FlatStack::get out of bounds is decided under C03.", "3 C13"),
-    "C14": ("IntoOwned laws on &[u8], &str, ReadSlice (both representations), ReadColumns, Option/Result/tuple read items and raw Wrapped items: into_owned, clone_onto with empty/shorter/longer/other-variant targets of symbolic contents, borrow_as round trip, reborrow, region-to-region push from both representations.",
+    "C14": ("IntoOwned laws on &[u8], &str, ReadSlice (both representations), ReadColumns, Option/Result/tuple read items and raw Wrapped items: into_owned, clone_onto with empty/shorter/longer/other-variant targets of symbolic contents and from EMPTY items onto non-empty targets, borrow_as round trip, reborrow, region-to-region push from both representations.",
             "Items of <= 3 elements. Huffman-ENCODED Wrapped items are covered for a uniform 2-bit code whose decoding table is written down by a verif-hook (two code words of one symbolic byte): into_owned and clone_onto onto shorter/longer targets; codes built by merge_regions are out of reach (B-tree).", "3 C14"),
     "C15": ("==, partial_cmp, cmp of ReadSlice items coincide with the lexicographic order of the owned vectors for all pairs of <= 3 symbolic bytes with symbolic lengths in four representation combinations, rows of strings, nested slices (thorough), a triple cross-check, and raw Wrapped items.",
             "Agreement with a total order on all pairs implies the order axioms. Raw vs Huffman-ENCODED Wrapped items are compared for a uniform 2-bit code (table written by a verif-hook, two code words) against raw items of 1..3 symbols, one comparison operator per harness; encoded vs encoded and codes built by merge_regions are not covered.", "3 C15"),
-    "C16": ("Serde round trip through a positional token format (so that exactly the derived Serialize/Deserialize code is executed): Stride (all variants, symbolic fields), IndexList, IndexOptimized in four modes, CollapseSequence, ConsecutiveIndexPairs, FlatStack, ColumnsRegion, SliceRegion, OwnedRegion, StringRegion, Option/Result/Tuple regions - copy reads identically and answers a symbolic continuation identically (same indices, dedup and index-compression decisions).",
-            "Concrete shapes with symbolic values (symbolic shapes exhaust memory); the format is not self-describing text - serde's own container impls are trusted as compiled.", "3 C16"),
-    "C17": ("Capacity form: after reserve_items / reserve_regions / merge_regions / FlatStack::merge_capacity, pushing exactly the announced batch (incl. empty items, Some/None and Ok/Err mixes, nested slices, owned-Vec input form) leaves every capacity reported by heap_size unchanged, on empty and populated targets, for the vector-backed structural regions. Allocator-call form with counting stubs on std::alloc::alloc and alloc::alloc::realloc_nonnull: no allocator call at all while announced plain-data contents are pushed, none for a push that fits the storage, and one growth step of the byte storage is 0 calls if the data fits, else exactly 1 with the capacity at least doubling (=> O(log n) calls for n pushes by induction on the step).",
+    "C16": ("Serde round trip through a positional token format (so that exactly the derived Serialize/Deserialize code is executed): Stride (all variants, symbolic fields), IndexList, IndexOptimized in four modes, CollapseSequence, ConsecutiveIndexPairs, FlatStack, SliceRegion, OwnedRegion, StringRegion, Option/Result/Tuple regions - copy reads identically and answers a symbolic continuation identically (same indices, dedup and index-compression decisions). Stride (quick) and IndexList (thorough) are additionally decided through a self-describing token format with serde_json's data model (name-keyed maps, name-tagged enums, null, one number type), where serde attributes such as untagged / rename / flatten show their effect.",
+            "Concrete shapes with symbolic values (symbolic shapes exhaust memory). The positional format agrees with a self-describing one for plain derives only: when the crate's serde code asks for map / any / string support the harness reports HARNESS-LIMIT and the check is INCONCLUSIVE (exit 2), not a violation. The self-describing format costs 10-30x under CBMC and decides the two smallest states only. ColumnsRegion is not decided (out of memory / time-out in both engines). serde's own container impls are trusted as compiled.", "3 C16"),
+    "C17": ("Capacity form: after reserve_items / reserve_regions / merge_regions / FlatStack::merge_capacity, pushing exactly the announced batch (incl. empty items, Some/None and Ok/Err mixes, nested slices, owned-Vec input form, plain vectors under Option/Result whose reserve_items arrives through filtering iterators) leaves every capacity reported by heap_size unchanged, on empty and populated targets, for the vector-backed structural regions. Allocator-call form with counting stubs on std::alloc::alloc and alloc::alloc::realloc_nonnull: no allocator call at all while announced plain-data contents are pushed, none for a push that fits the storage, and one growth step of the byte storage is 0 calls if the data fits, else exactly 1 with the capacity at least doubling (=> O(log n) calls for n pushes by induction on the step).",
             "Batches of 2-3 items; growth step for 5 concrete (capacity, length, added) triples with symbolic contents. Stubs: std::alloc::alloc, alloc::alloc::realloc_nonnull -> counting wrappers that allocate through std::alloc::System; a witness harness checks on every run that the stubs are in effect. Runs of 2^6..2^14 as such are outside the technique; the logarithmic bound is an arithmetic inference from the one-step obligation.", "3 C17"),
-    "C18": ("heap_size accounting on 21 compositions: used <= capacity for every pair, sum of used covers the model payload after dedup and is monotone on push, after clear the payload is no longer accounted and no capacity shrank; every branch contributes (Err side, second tuple field, third column, FlatStack indices, slice index entries).",
+    "C18": ("heap_size accounting on 23 compositions: used <= capacity for every pair, sum of used covers the model payload after dedup and is monotone on push, after clear the payload is no longer accounted and no capacity shrank; every branch contributes (Err side, second tuple field, third column, FlatStack indices, slice index entries).",
             "Histories push, push, clear. Coded regions excluded (compressed bytes; Huffman heap_size is todo!()).", "3 C18"),
     "C19": ("IndexOptimized heap cost equals the documented rule computed on a model (free stride prefix, 4 bytes per u32 entry, 8 from the first larger value) for unconstrained sequences and from each mode; the dense-index step Striding(1,c).push(c) is absorbed for any c; FlatStacks over consecutive-pair and columns regions spend zero bytes (used and capacity) on their own indices.",
             "Sequences of 2-3 (thorough 4) values; the any-number-of-items claim rests on the one-step obligation plus C12.", "3 C19"),
     "C20": ("Twin runs where one region receives a history mixing all input forms (owned, &, &&, array, slice, Vec, &Vec, PushIter, read items in both representations) and the other the canonical form: equal indices and used bytes after every step, equal reads - for OwnedRegion, StringRegion, SliceRegion, ColumnsRegion, Mirror/Vec/Option/Result/Tuple regions and through wrappers.",
-            "One value per form with concrete shape, incl. the empty value and a narrower row after a wider one for the read-item forms; Huffman container forms not covered (B-tree). The runner compares the impl Push headers of the current sources with the list the form tables were written against and reports a new header as uncovered (evidence and stderr; the exit code is unaffected).", "3 C20"),
+            "One value per form with concrete shape, incl. the empty value, a narrower row after a wider one for the read-item and owned-Vec forms, and an owned Vec with spare capacity pushed onto a full non-empty region; Huffman container forms not covered (B-tree). The runner compares the impl Push headers of the current sources with the list the form tables were written against and reports a new header as uncovered (evidence and stderr; the exit code is unaffected).", "3 C20"),
 }
 
 READY = os.environ.get("READY", "").split()
